@@ -937,6 +937,218 @@ pub fn hcase(extreme_bias: bool) -> BoxedStrategy<HCase> {
     prop_oneof![20 => mutated, 8 => magic, 4 => random, 1 => eco_hcase()].boxed()
 }
 
+
+// ---------------------------------------------------------------------------------
+// byte form of a case (coverage-guided fuzzing: libFuzzer mutates these bytes; `decode_case` is total)
+//
+// header (10 bytes): entry tag, engine class, id a (u16 LE), id d (u16 LE), toggles (players | rules << 2 | extra-present << 4), check, retries, game index low byte
+// then records: tag (0 = start a new UDP group, 1 = datagram in the current group, 2 = TCP script closing after the data, 3 = TCP script left open,
+//               4 = refused TCP connection, 5 = datagram queued at open), length (u16 LE), bytes
+
+const N_TAGS: u8 = 23;
+
+fn game_lists() -> (Vec<String>, Vec<String>) {
+    let mut ids: Vec<String> = gamedig::GAMES.keys().map(|s| s.to_string()).collect();
+    ids.sort();
+    let mut mods: Vec<String> = modules().into_iter().map(|m| m.id.to_string()).collect();
+    mods.sort();
+    (ids, mods)
+}
+
+pub fn decode_case(data: &[u8]) -> HCase {
+    use crate::models::valve::EngineSel;
+    let h = |i: usize| data.get(i).copied().unwrap_or(0);
+    let (ids, mods) = game_lists();
+    let a = u16::from_le_bytes([h(2), h(3)]) as u32;
+    let d = u16::from_le_bytes([h(4), h(5)]) as u32;
+    let (players, rules, extra) = (h(6) & 3, (h(6) >> 2) & 3, h(6) & 16 != 0);
+    let (players, rules) = (players.min(2), rules.min(2));
+    let check = h(7) & 1 != 0;
+    let game_index = a as usize | ((h(9) as usize) << 16);
+    let entry = match h(0) % N_TAGS {
+        0 => {
+            let engine = match h(1) % 8 {
+                0 => EngineSel::SourceNone,
+                1 => EngineSel::Source(a, None),
+                2 => EngineSel::Source(a, Some(d)),
+                3 => EngineSel::Ship,
+                4 => EngineSel::Css,
+                5 => EngineSel::Ror2,
+                6 => EngineSel::GoldSrc(false),
+                _ => EngineSel::GoldSrc(true),
+            };
+            Entry::Valve { engine, players, rules, check }
+        }
+        1 => Entry::Gs1,
+        2 => Entry::Gs1Vars,
+        3 => Entry::Gs2,
+        4 => Entry::Gs3,
+        5 => Entry::Gs3Vars,
+        6 => Entry::Quake(h(1) % 3 + 1),
+        7 => Entry::Unreal2 { players, rules },
+        8 => Entry::McAuto,
+        9 => Entry::McJava,
+        10 => Entry::McBedrock,
+        11 => Entry::McLegacy,
+        12 => Entry::McLegacySpecific(h(1) % 3),
+        13 => Entry::Ffow,
+        14 => Entry::Savage2,
+        15 => Entry::Jc2m,
+        16 => Entry::Mindustry,
+        17 => Entry::TheShip,
+        18 => Entry::Battalion,
+        19 => Entry::MasterSpecific,
+        20 => Entry::MasterQuery,
+        21 => Entry::Generic { game: ids[game_index % ids.len()].clone(), extra: if extra { Some((players, rules, check)) } else { None } },
+        _ => Entry::Module { game: mods[game_index % mods.len()].clone() },
+    };
+    let mut c = HCase { entry, retries: h(8) % 3, udp_at_open: vec![], udp: vec![], tcp: vec![], source: "fuzz".into() };
+    let mut i = 10;
+    while i + 3 <= data.len() {
+        let tag = data[i] % 6;
+        let len = u16::from_le_bytes([data[i + 1], data[i + 2]]) as usize;
+        i += 3;
+        let end = (i + len).min(data.len());
+        let body = &data[i .. end];
+        i = end;
+        match tag {
+            0 => c.udp.push(vec![]),
+            1 => {
+                if c.udp.is_empty() {
+                    c.udp.push(vec![]);
+                }
+                c.udp.last_mut().unwrap().push(hex(body));
+            }
+            2 | 3 => c.tcp.push(TcpScript { data: hex(body), close: tag == 2, refuse: false }),
+            4 => c.tcp.push(TcpScript { data: String::new(), close: true, refuse: true }),
+            _ => c.udp_at_open.push(hex(body)),
+        }
+        if c.udp.len() > 40 || c.tcp.len() > 12 {
+            break;
+        }
+    }
+    c
+}
+
+pub fn encode_case(c: &HCase) -> Vec<u8> {
+    use crate::models::valve::EngineSel;
+    let (ids, mods) = game_lists();
+    let mut h = [0u8; 10];
+    let mut set_ids = |h: &mut [u8; 10], a: u32, d: u32| {
+        h[2 .. 4].copy_from_slice(&(a as u16).to_le_bytes());
+        h[4 .. 6].copy_from_slice(&(d as u16).to_le_bytes());
+        h[9] = (a >> 16) as u8;
+    };
+    match &c.entry {
+        Entry::Valve { engine, players, rules, check } => {
+            h[0] = 0;
+            h[6] = players | rules << 2;
+            h[7] = *check as u8;
+            match engine {
+                EngineSel::SourceNone => h[1] = 0,
+                EngineSel::Source(a, None) => {
+                    h[1] = 1;
+                    set_ids(&mut h, *a, 0);
+                    h[9] = 0;
+                }
+                EngineSel::Source(a, Some(d)) => {
+                    h[1] = 2;
+                    set_ids(&mut h, *a, *d);
+                    h[9] = 0;
+                }
+                EngineSel::Ship => h[1] = 3,
+                EngineSel::Css => h[1] = 4,
+                EngineSel::Ror2 => h[1] = 5,
+                EngineSel::GoldSrc(false) => h[1] = 6,
+                EngineSel::GoldSrc(true) => h[1] = 7,
+            }
+        }
+        Entry::Gs1 => h[0] = 1,
+        Entry::Gs1Vars => h[0] = 2,
+        Entry::Gs2 => h[0] = 3,
+        Entry::Gs3 => h[0] = 4,
+        Entry::Gs3Vars => h[0] = 5,
+        Entry::Quake(v) => {
+            h[0] = 6;
+            h[1] = v.saturating_sub(1);
+        }
+        Entry::Unreal2 { players, rules } => {
+            h[0] = 7;
+            h[6] = players | rules << 2;
+        }
+        Entry::McAuto => h[0] = 8,
+        Entry::McJava => h[0] = 9,
+        Entry::McBedrock => h[0] = 10,
+        Entry::McLegacy => h[0] = 11,
+        Entry::McLegacySpecific(g) => {
+            h[0] = 12;
+            h[1] = *g;
+        }
+        Entry::Ffow => h[0] = 13,
+        Entry::Savage2 => h[0] = 14,
+        Entry::Jc2m => h[0] = 15,
+        Entry::Mindustry => h[0] = 16,
+        Entry::TheShip => h[0] = 17,
+        Entry::Battalion => h[0] = 18,
+        Entry::MasterSpecific => h[0] = 19,
+        Entry::MasterQuery => h[0] = 20,
+        Entry::Generic { game, extra } => {
+            h[0] = 21;
+            set_ids(&mut h, ids.iter().position(|g| g == game).unwrap_or(0) as u32, 0);
+            if let Some((p, r, ch)) = extra {
+                h[6] = p | r << 2 | 16;
+                h[7] = *ch as u8;
+            }
+        }
+        Entry::Module { game } => {
+            h[0] = 22;
+            set_ids(&mut h, mods.iter().position(|g| g == game).unwrap_or(0) as u32, 0);
+        }
+    }
+    h[8] = c.retries;
+    let mut out = h.to_vec();
+    let mut rec = |tag: u8, body: &[u8]| {
+        let body = &body[.. body.len().min(65_535)];
+        out.push(tag);
+        out.extend_from_slice(&(body.len() as u16).to_le_bytes());
+        out.extend_from_slice(body);
+    };
+    for d in &c.udp_at_open {
+        rec(5, &unhex(d));
+    }
+    for g in &c.udp {
+        rec(0, &[]);
+        for d in g {
+            rec(1, &unhex(d));
+        }
+    }
+    for t in &c.tcp {
+        if t.refuse {
+            rec(4, &[]);
+        } else {
+            rec(if t.close { 2 } else { 3 }, &unhex(&t.data));
+        }
+    }
+    out
+}
+
+/// One fuzz iteration: None if the case is handled cleanly, otherwise (property, signature, detail).
+pub fn fuzz_one(data: &[u8]) -> Option<(&'static str, String, serde_json::Value, HCase)> {
+    let case = decode_case(data);
+    if case.entry.family() == Family::Http {
+        return None; // real sockets: not inside the in-process fuzz loop
+    }
+    let run = run_hostile(&case);
+    let site = crate::alloc::take_site();
+    if let Some(f) = judge_c01(&case, &run).failure {
+        return Some(("C01", f.signature, f.detail, case));
+    }
+    if let Some(f) = judge_c13(&case, &run, site).failure {
+        return Some(("C13", f.signature, f.detail, case));
+    }
+    None
+}
+
 pub fn run_hostile(case: &HCase) -> Run<()> {
     if case.entry.family() == Family::Http {
         // ureq bypasses the socket seam: the script is served by this thread's real loopback HTTP server
@@ -1004,11 +1216,17 @@ impl Prop for C01 {
     fn strategy(&self, _tier: Tier) -> BoxedStrategy<HCase> { hcase(false) }
 
     fn run(&self, case: &HCase) -> Outcome {
+        let run = run_hostile(case);
+        judge_c01(case, &run)
+    }
+}
+
+pub fn judge_c01(case: &HCase, run: &Run<()>) -> Outcome {
+    {
         let mut o = Outcome::new();
         o.label(format!("entry={}", case.entry.label()));
         o.label(format!("source={}", case.source));
-        let run = run_hostile(case);
-        o.nontrivial = reached_parser(&run) && script_bytes(case) > 0;
+        o.nontrivial = reached_parser(run) && script_bytes(case) > 0;
         o.label(format!("outcome={}", match &run.ended { Ended::Ok(_) => "Ok".to_string(), Ended::Err(k) => format!("Err({k:?})"), Ended::Panic(_) => "Panic".to_string() }));
         if let Ended::Panic(p) = &run.ended {
             o.fail(
@@ -1070,7 +1288,14 @@ impl Prop for C13 {
         let bomb = crate::bz2::compress(&vec![0u8; 120 << 20], 9);
         let mut variants: Vec<(&str, u32, Option<Vec<u8>>)> = vec![("declared-4GiB-tiny-stream", 0xFFFF_FFFF, small.clone()), ("declared-1GiB-tiny-stream", 1 << 30, small)];
         variants.push(("declared-4GiB-bomb", 0xFFFF_FFFF, bomb.clone()));
-        variants.push(("declared-120MiB-bomb", 120 << 20, bomb));
+        variants.push(("declared-120MiB-bomb", 120 << 20, bomb.clone()));
+        // a small (acceptable) declared size in front of a stream that expands far beyond it
+        for (name, declared) in [("declared-0-bomb", 0u32), ("declared-6B-bomb", 6), ("declared-1KiB-bomb", 1024), ("declared-1MiB-bomb", 1 << 20), ("declared-4MiB-bomb", 4 << 20), ("declared-4MiB+1-bomb", (4 << 20) + 1)] {
+            variants.push((name, declared, bomb.clone()));
+        }
+        let bomb40 = crate::bz2::compress(&vec![0x41u8; 40 << 20], 9);
+        variants.push(("declared-1KiB-bomb-40MiB", 1024, bomb40.clone()));
+        variants.push(("declared-4MiB-bomb-40MiB", 4 << 20, bomb40));
         for (name, declared, body) in variants {
             let Some(body) = body else { continue };
             // one compressed fragment: header, id with the compression bit, total 1, number 0, size, declared size, crc
@@ -1103,15 +1328,21 @@ impl Prop for C13 {
     }
 
     fn run(&self, case: &HCase) -> Outcome {
+        let run = run_hostile(case);
+        let site = crate::alloc::take_site();
+        judge_c13(case, &run, site)
+    }
+}
+
+pub fn judge_c13(case: &HCase, run: &Run<()>, site: Option<String>) -> Outcome {
+    {
         let mut o = Outcome::new();
         o.label(format!("entry={}", case.entry.label()));
         if case.source.starts_with("decompression") {
             o.label(case.source.clone());
         }
-        let run = run_hostile(case);
-        let site = crate::alloc::take_site();
         let a = run.alloc;
-        o.nontrivial = reached_parser(&run) && a.requests > 0;
+        o.nontrivial = reached_parser(run) && a.requests > 0;
         o.label(match a.max_request {
             0 ..= 65_535 => "max-request<64KiB",
             65_536 ..= 1_048_575 => "max-request<1MiB",
